@@ -69,7 +69,8 @@ CLAIMS = {
        "negation = 'a prefix not was parsed' and the (operator, operator-level not) pair as parsed, neither folded into the other. A failed "
        "query-in outcome under the flag: new difference = reverse_diff(old difference, one operand list), Success iff empty; reverse_diff "
        "keeps exactly the elements not in the old difference. The clause evaluator hands binary_operation the clause's OWN operator and the "
-       "flag `operator-level not XOR prefix not`, nothing else.",
+       "flag `operator-level not XOR prefix not`, nothing else."
+       "Added later: the prefix `not` of a parameterised rule call (found ignored: D16, fixed) - the call obligation has the negation flag symbolic.",
   design="4/C03"),
  "C04": dict(
   text="Bounded model checking that the real CNF combinator returns the same status for a CNF and for any permutation of its "
@@ -81,7 +82,8 @@ CLAIMS = {
        "present, else the definitions of that name are evaluated in order through eval_rule and the first status that is not SKIP "
        "decides, SKIP if all are; the result is stored under that name and returned). NOT covered: the traversal that fills those caches, key "
        "capture (add_variable_capture_key), parameterised rules."
-       "Added later: the pass-through methods of RootScope / BlockScope / ValueScope (record hooks, rule_status, find_parameterized_rule ...) make exactly one call with the arguments given and write nothing - no memo table is fed from a record passing through.",
+       "Added later: the pass-through methods of RootScope / BlockScope / ValueScope (record hooks, rule_status, find_parameterized_rule ...) make exactly one call with the arguments given and write nothing - no memo table is fed from a record passing through."
+       "Added later: literal / cached answers of resolve_variable write nothing; an unresolvable key variable is an error of the query (orderings that must stay errors); the query dispatcher runs here too.",
   design="4/C04"),
  "C05": dict(
   text="Order-independence, decided on MIR (z3+cvc5): inside one process image the only run-to-run variable is the iteration order of "
@@ -101,7 +103,8 @@ CLAIMS = {
        "from others), dependence on environment variables, the clock and earlier evaluations in the same process (C12 covers the scopes), "
        "iteration hidden inside dependencies (serde_yaml / indexmap are order-preserving), exit codes (order-free folds: C06). No Kani "
        "harness serves this property (a HashMap with symbolic keys does not terminate under CBMC)."
-       "Added later: every static / thread_local item of the crate is enumerated from the MIR of the current tree; none may be writable after its one-time initialisation (no static mut, no thread_local, no interior mutability inside a static). Degenerate solver part (a finite table), stated as an obligation so the evidence lists the sites; replayed by an isolation battery (two documents of equal shape, one compliant, one not, all built-ins).",
+       "Added later: every static / thread_local item of the crate is enumerated from the MIR of the current tree; none may be writable after its one-time initialisation (no static mut, no thread_local, no interior mutability inside a static). Degenerate solver part (a finite table), stated as an obligation so the evidence lists the sites; replayed by an isolation battery (two documents of equal shape, one compliant, one not, all built-ins)."
+       "Added later: every call that reads an environment variable, the local time zone, a clock or a random source is enumerated (only now() and the elapsed-time stamps are allowed); TZ / LANG / HOME replay.",
   design="0b/C05"),
  "C06": dict(
   text="Bounded model checking of the two pure exit-code kernels: commands::test::get_exit_code folded over any sequence of <= 4 "
@@ -155,7 +158,8 @@ CLAIMS = {
        "(known_findings.json: fixed).",
   note="NOT covered: arbitrary bytes through the nom parser and libyaml, recursion depth, the report builder's unreachable!()s, "
        "operators.rs match_value. K14 stubs values::read_from (forced to fail) and str::trim (identity)."
-       "Added later: get_exit_code's match ends in unreachable!(): at both call sites (<= 2 rules files) accumulator and per-file code are one of its three codes.",
+       "Added later: get_exit_code's match ends in unreachable!(): at both call sites (<= 2 rules files) accumulator and per-file code are one of its three codes."
+       "Added later: SliceDisplay::fmt as an index site (empty lists); record_unary_clause never records a Literal + the report builder is total on unary records (D14); Loader::load requests no event after the stream end (D17); handle_sequence_end.",
   design="4/C08"),
  "C09": dict(
   text="Bounded model checking of the combination rule: FileReport::combine / Status::and over up to 4 parts give FAIL iff some "
@@ -173,7 +177,8 @@ CLAIMS = {
        "of order) and folds the status with Status::and. NOT covered: the text of the messages and the per-shape content of each clause "
        "report, the serialised JSON. KNOWN FINDING (recorded, not repaired): a rule NAME defined several times with different statuses is "
        "listed in more than one of the three lists."
-       "Added later: the report builder's clause reports show the visited record's own from / to values and operator pair; binary_operation records the left / right value of the outcome being reported; the partition replay checks the status implied by the three sets (the property's own sentence) also for rule names defined twice.",
+       "Added later: the report builder's clause reports show the visited record's own from / to values and operator pair; binary_operation records the left / right value of the outcome being reported; the partition replay checks the status implied by the three sets (the property's own sentence) also for rule names defined twice."
+       "Added later: a keys filter's per-key comparisons are recorded under a Filter record (D13, fixed); binary records carry the clause's own messages.",
   design="4/C09"),
  "C10": dict(
   text="Bounded symbolic execution (MIR, callees modelled, value identities tracked; z3+cvc5) of the loader -> evaluator conversion "
@@ -192,7 +197,8 @@ CLAIMS = {
        "the values' paths (operators.rs clones, eval_context.rs report builder), unresolved `traversed_to` / `remaining_query`. No Kani "
        "harness serves this property in the quick tier."
        "Added later: Loader::handle_scalar_event attaches the scalar's own location (the C11 typing obligation, now also run here, with a YAML replay over every scalar style); clause reports / records keep the outcome's own values (see C09)."
-       "Added later: system_mark_to_location copies libyaml's line / column unchanged and Parser::next returns the START mark of the event it converted.",
+       "Added later: system_mark_to_location copies libyaml's line / column unchanged and Parser::next returns the START mark of the event it converted."
+       "Added later: accumulate / accumulate_map / retrieve_index obligations of C01 also run here (what is reported as the value reached).",
   design="0b/C10"),
  "C11": dict(
   text="Bounded symbolic execution (MIR; std parsers modelled as fallible calls; z3+cvc5) of the loader's scalar typing: "
@@ -210,7 +216,8 @@ CLAIMS = {
        "`+1` are accepted by Rust's parsers), agreement with serde_yaml / serde_json used by `test` and the library API, the content "
        "of the short-form intrinsic tables beyond their shape (every short tag maps to an `Fn::`/`Ref` long form, sequence vs single-value "
        "sets disjoint), aliases and non-string keys, key/list order, libyaml itself. No Kani harness serves this property."
-       "Added later: at the libyaml boundary the scalar's bytes are from_raw_parts(scalar.value, scalar.length) of the same event (not a C-string reading); replay with embedded NUL characters through validate and test.",
+       "Added later: at the libyaml boundary the scalar's bytes are from_raw_parts(scalar.value, scalar.length) of the same event (not a C-string reading); replay with embedded NUL characters through validate and test."
+       "Added later: handle_sequence_end closes every sequence - also an empty one - the same way (short-form tag folding); the MarkedValue conversion obligation of C10 also runs here.",
   design="0b/C11"),
  "C12": dict(
   text="Bounded symbolic execution (MIR, callees modelled, value identities tracked; z3+cvc5) of the three validate loops that pair "
@@ -263,7 +270,8 @@ CLAIMS = {
        "default rule. These appear only in the native replay battery, i.e. they are exercised when some obligation "
        "is refuted, not decided by a solver. No Kani harness serves this property."
        "Added later: `.n` and `[n]` - the two conversion closures run on ONE shared symbolic i64 literal (second executor's symbols renamed apart, casts with exact wrap-around) build the same QueryPart::Index for every literal; 28 spelling pairs in the native replay, incl. literals >= 2^31."
-       "Added later: rules_file files every top-level line as ONE conjunction entry of the implicit default rule (its `or` alternatives together).",
+       "Added later: rules_file files every top-level line as ONE conjunction entry of the implicit default rule (its `or` alternatives together)."
+       "Added later: comment2's wiring (delimited('#', take_till(c == newline), multispace0)); comment-at-end-of-file spelling pairs.",
   design="0b/C14"),
  "C15": dict(
   text="Bounded symbolic execution (MIR, callees modelled, value identities tracked; z3+cvc5) of the resolution machinery: "
@@ -296,7 +304,8 @@ CLAIMS = {
   note="NOT covered: that `test` and `validate` compute the same statuses (two loaders + the evaluator), `--dir` mode, the rendering of "
        "the four output formats."
        "Added later: every rule recorded by the structured test reporter is an entry of get_by_rules' OWN result (a loop over a re-keyed or filtered copy refutes the obligation); rule names differing only in letter case are in the native replay. This obligation had been vacuous for a while (see DESIGN 0.4) - a generic zero-count guard now makes such an obligation inconclusive."
-       "Added later: build_test_suite's failure counter grows by number_of_failures() = len(failed_rules) per test case (renderings-agree replay: json / junit failure counts for 0..3 unmet expectations per case).",
+       "Added later: build_test_suite's failure counter grows by number_of_failures() = len(failed_rules) per test case (renderings-agree replay: json / junit failure counts for 0..3 unmet expectations per case)."
+       "Added later: get_test_data makes one test case per spec (fold over all specs); validate's scalar typing obligations also run here.",
   design="4/C16"),
  "C17": dict(
   text="PathAwareValue::merge decided twice: by Kani/CBMC on one-entry maps with symbolic integer values (equal keys: MultipleValues "
@@ -310,7 +319,8 @@ CLAIMS = {
        "parameters (an error stops the run).",
   note="NOT covered: reading the -i files, that `keys` and `values` stay aligned for `keys` "
        "filters beyond the per-entry push, list merging semantics (extend), equality of verdicts with the pre-merged document."
-       "Added later: has_a_supported_extension is exactly `some extension is a suffix of the name` (callers hand it absolute paths for --data and base names for -i); replay over unusual parameter file names.",
+       "Added later: has_a_supported_extension is exactly `some extension is a suffix of the name` (callers hand it absolute paths for --data and base names for -i); replay over unusual parameter file names."
+       "Added later: walk_dir is the unfiltered walkdir traversal of the base given (symlink replay).",
   design="0b/C17"),
  "C18": dict(
   text="Bounded model checking of the small built-ins: substring on strings of 0..3 bytes (thorough: 4) built from symbolic 1/2/3-byte "
@@ -329,7 +339,8 @@ CLAIMS = {
        "parsing (`parse::<i64>` on symbolic bytes), dispatch/arity in the parser, results bound to variables."
        "Added later: resolve_function and its per-argument closure - a literal argument becomes [Literal(v)], a query argument is evaluated in the scope given, a nested call recursively; the function named is called on exactly the folded list; its present results are wrapped as Resolved values in order."
        "Added later: Kani k16_parse_int_float - parse_int on every finite float below 2^53 truncates toward zero."
-       "Added later: the parser accepts a built-in call only with the declared number of arguments (function_expr), the precondition of the argument-index obligations of C08.",
+       "Added later: the parser accepts a built-in call only with the declared number of arguments (function_expr), the precondition of the argument-index obligations of C08."
+       "Added later: substring's offsets are its arguments, never wrapped (D15, fixed); to_lower / to_upper push std's Unicode conversion of an input.",
   design="4/C18"),
  "C19": dict(
   text="The part of rulegen that engine B can read (MIR; serde / HashMap / formatting calls modelled; z3+cvc5): print_rules hands the text it "
